@@ -2,6 +2,7 @@
 
 from __future__ import annotations
 
+from collections.abc import Collection
 from difflib import get_close_matches
 from typing import TYPE_CHECKING, Any, Literal
 
@@ -578,12 +579,12 @@ def resolve_runtime_selected(
         return None  # all outputs — no narrowing
     if isinstance(select, str):
         sel: tuple[str, ...] = (select,)
-    elif isinstance(select, list):
+    elif isinstance(select, Collection):
+        # filter_outputs returns exactly these names, so they are validated
+        # whatever container they come in (list, tuple, set, ...)
         sel = tuple(select)
     else:
-        # Unexpected type — treat as "no narrowing" rather than raising, since
-        # run() signature already constrains the type at the public API level.
-        return None
+        raise TypeError(f"select must be an output name, a collection of output names or '**', got {type(select).__name__}")
 
     invalid = [n for n in sel if n not in graph.outputs]
     if invalid:
